@@ -33,6 +33,10 @@ def run_generator(it, g):
 
 
 def ex_Yield(self, e, fr):
+    cb = getattr(self, '_yield_cb', None)
+    if cb is not None and fr.func is not None and \
+            getattr(fr.func, 'is_contextmanager', False):
+        return cb(None if e.value is None else self.eval(e.value, fr))
     sink = getattr(self, '_yield_sink', None)
     if sink is None:
         raise Unsupported('yield outside a generator run')
